@@ -1,5 +1,7 @@
 import TruthModel.Driver.Sexp
 import TruthModel.Driver.C11
+import TruthModel.Driver.C14
+import TruthModel.Driver.C13
 import TruthModel.Driver.C17
 import TruthModel.Driver.C03
 /-
@@ -12,6 +14,8 @@ open TruthModel
 def handler (id : String) : Sexp → Sexp :=
   match id with
   | "C11" => Driver.C11.handle
+  | "C14" => Driver.C14.handle
+  | "C13" => Driver.C13.handle
   | "C17" => Driver.C17.handle
   | "C03" => Driver.C03.handle
   | "C16" => Driver.C03.handle
